@@ -2,6 +2,11 @@
 From SV Require Import Base Regex Tree IR Lit Inputs Match.
 Local Open Scope bool_scope.
 
+Inductive sublist {A} : list A -> list A -> Prop :=
+| sl_nil : forall l, sublist [] l
+| sl_keep : forall x r l, sublist r l -> sublist (x :: r) (x :: l)
+| sl_skip : forall x r l, sublist r l -> sublist r (x :: l).
+
 Section Facts.
 Variable bidi : cp -> N.
 Variable cx : ctx.
@@ -89,6 +94,41 @@ Theorem match_selectors_monotone f e p A B h m m' :
   match_selectors bidi cx (S f) e p (SL (A ++ B) false h) m = Ok (true, m').
 Proof.
   intros H. rewrite match_selectors_union. unfold bindM. rewrite H. reflexivity.
+Qed.
+
+(* ---- select(): a sub-sequence of the descendant walk, cut at the limit ---- *)
+Lemma select_loop_sublist fuel e sels l lim m r m' :
+  select_loop bidi cx fuel e sels l lim m = Ok (r, m') -> sublist r l.
+Proof.
+  revert lim m r m'. induction l as [|q l IH]; intros lim m r m' H.
+  - cbn in H. injection H as <- <-. constructor.
+  - cbn [select_loop] in H. unfold bindM in H.
+    destruct (match_el bidi cx fuel e sels q m) as [[b m1]|]; [|discriminate].
+    destruct b.
+    + destruct lim as [[|[|k]]|].
+      * injection H as <- <-. apply sl_keep. constructor.
+      * injection H as <- <-. apply sl_keep. constructor.
+      * destruct (select_loop bidi cx fuel e sels l (Some (S k)) m1) as [[r1 m2]|] eqn:E; [|discriminate].
+        injection H as <- <-. apply sl_keep. exact (IH _ _ _ _ E).
+      * destruct (select_loop bidi cx fuel e sels l None m1) as [[r1 m2]|] eqn:E; [|discriminate].
+        injection H as <- <-. apply sl_keep. exact (IH _ _ _ _ E).
+    + apply sl_skip. exact (IH _ _ _ _ H).
+Qed.
+
+Lemma select_loop_limit fuel e sels l k m r m' :
+  select_loop bidi cx fuel e sels l (Some k) m = Ok (r, m') -> (length r <= Nat.max k 1)%nat.
+Proof.
+  revert k m r m'. induction l as [|q l IH]; intros k m r m' H.
+  - cbn in H. injection H as <- <-. cbn. lia.
+  - cbn [select_loop] in H. unfold bindM in H.
+    destruct (match_el bidi cx fuel e sels q m) as [[b m1]|]; [|discriminate].
+    destruct b.
+    + destruct k as [|[|k]].
+      * injection H as <- <-. cbn. lia.
+      * injection H as <- <-. cbn. lia.
+      * destruct (select_loop bidi cx fuel e sels l (Some (S k)) m1) as [[r1 m2]|] eqn:E; [|discriminate].
+        injection H as <- <-. specialize (IH _ _ _ _ E). cbn [length]. lia.
+    + exact (IH _ _ _ _ H).
 Qed.
 
 (* X:is(A): sub-selector lists are a conjunction *)
